@@ -1,6 +1,7 @@
 import Driver.Loop
 import Driver.Codec
 import PyGqlModel.SchemaValid
+import PyGqlModel.Spec.SchemaValidSpec
 open PyGql PyGql.SchemaValid
 
 namespace DriverC13
@@ -30,6 +31,7 @@ def opOfJson (j : J) : Op :=
   | "replace_types" =>
     .replaceTypes ((j.arrD "entries").map entryOfJson) ((j.arrD "dir_entries").map dirEntryOfJson)
       (match j.get? "healed" with | some (.obj kvs) => some (Driver.schemaOfJson (.obj kvs)) | _ => none)
+  | "assign_structure" => .assignStructure (Driver.schemaOfJson (j.getD "schema")) (j.boolD "seen")
   | _ => .validate
 
 /-- outcomes, and after every step the cache flag and the verdict of a fresh validation -/
@@ -53,6 +55,11 @@ def handle (j : J) : J :=
       .bool (isSubtype s (Driver.tyOfJson (p.getD "a")) (Driver.tyOfJson (p.getD "b")))))]
   | "name" =>
     .obj [("valid", .arr ((j.arrD "names").map fun n => .bool (matchName ((n.arrD "cp").filterMap fun c => match c with | .num i => some i.toNat | _ => none))))]
+  | "bind" =>
+    -- the call-binding model against CPython: one signature, several keyword sets
+    let r := resolverOfJson (j.getD "resolver")
+    .obj [("binds", .arr ((j.arrD "kws").map fun ks =>
+      .bool (PyGql.SchemaValidSpec.bindOk r.params ((ks.arrD "k").filterMap fun x => x.asStr?))))]
   | "history" =>
     let s := Driver.schemaOfJson (j.getD "schema")
     .obj [("trace", .arr (traceJson { schema := s, isValid := j.boolD "cached" } ((j.arrD "ops").map opOfJson)))]
